@@ -2,6 +2,7 @@ use std::collections::HashMap;
 use std::path::PathBuf;
 use std::sync::Arc;
 
+use crate::engine::core::column::column_block_snapshot::ColumnBlockSnapshot;
 use crate::engine::core::column::format::PhysicalType;
 use crate::engine::core::column::type_catalog::ColumnTypeCatalog;
 use crate::engine::core::{ColumnKey, ColumnReader, EventId, QueryCaches, ZoneCursor, ZoneMeta};
@@ -196,14 +197,21 @@ impl ZoneCursorLoader {
 
                 let mut payload_fields = HashMap::new();
                 for field in &schema_fields {
-                    let snapshot = ColumnReader::load_for_zone_snapshot(
-                        &segment_dir,
-                        segment_id,
-                        &self.uid,
-                        field,
-                        zone.zone_id,
-                        Some(&self.caches),
-                    )?;
+                    // A segment in which no event carried an optional field has no
+                    // column files for it: treat it like a zone without that column.
+                    let zfc_path = segment_dir.join(format!("{}_{}.zfc", self.uid, field));
+                    let snapshot = if zfc_path.exists() {
+                        ColumnReader::load_for_zone_snapshot(
+                            &segment_dir,
+                            segment_id,
+                            &self.uid,
+                            field,
+                            zone.zone_id,
+                            Some(&self.caches),
+                        )?
+                    } else {
+                        ColumnBlockSnapshot::empty()
+                    };
                     let phys = snapshot.physical_type();
                     let key: ColumnKey = (event_type_name.clone(), field.clone());
                     let values: Vec<ScalarValue> = snapshot.into_scalar_values();
